@@ -528,7 +528,13 @@ Definition build_message (name : option str) (kids : list shape) : result messag
   do st <- match name with
            | Some n => match slookup (upper n) (t_messages t) with
                        | Some r => do s <- parse_structure t r; Ok (Some s)
-                       | None => Err (HL7 EInvalidName)
+                       | None =>
+                           (* Message.__init__ (core.py:1950): `except InvalidName:` a Z message name is
+                              given the reference ('sequence', ()) - an empty structure: no child of the
+                              message receives a reference from it *)
+                           if valid_z_message_name n
+                           then do s <- parse_structure t empty_seq; Ok (Some s)
+                           else Err (HL7 EInvalidName)
                        end
            | None => Ok None
            end;
